@@ -12,8 +12,8 @@ from harness.checks import c03
 from harness.common import Check
 
 TIERS = {"quick": {"ASSGN2": (7, 30, 120, 30), "ASSGN2S": (7, 26, 80, 10), "WIDE12": (3, 26, 48, 3), "XMLISH": (6, 26, 100, 20), "NULLABLE": (6, 14, 40, 10)},
-         "thorough": {"ASSGN2": (8, 40, 600, 200), "ASSGN2S": (8, 34, 400, 60), "WIDE12": (3, 26, 400, 10), "ASSGN": (7, 30, 300, 100), "XMLISH": (7, 34, 500, 120), "NULLABLE": (8, 20, 150, 50),
-                      "CSVISH": (7, 22, 200, 40), "NUM": (6, 16, 150, 40)}}
+         "thorough": {"ASSGN2": (8, 40, 300, 100), "ASSGN2S": (8, 34, 200, 40), "WIDE12": (3, 26, 200, 8), "ASSGN": (7, 30, 150, 50),
+                      "XMLISH": (7, 34, 250, 60), "NULLABLE": (8, 20, 120, 40), "CSVISH": (7, 22, 120, 25), "NUM": (6, 16, 120, 25)}}
 PID = "C08"
 
 
